@@ -394,7 +394,8 @@ def run_crash(limit):
         shutil.rmtree(d, ignore_errors=True)
 
 
-SHARED_LISTS = ["pool", "reversed", "rotated", "first5", "specials-first"]
+SHARED_LISTS = ["pool", "reversed", "rotated", "first5", "specials-first", "custom"]
+CUSTOM_TEXTS = ["See \u201c1 U,S, 1\u201d; accord 2 U.S. 2 \u2014 and \u00a7 3, id, at 4.", "1 U,S, at 5; Foo, supra, at 3"]
 
 
 def shared_list(name):
@@ -407,6 +408,17 @@ def shared_list(name):
         return pool[:5]
     if name == "specials-first":
         return pool[-2:] + pool[:-2]
+    if name == "custom":
+        # the recipe of the test suite's custom-tokenizer test: copy each extractor, edit its pattern, drop the compiled regex
+        import copy
+
+        out = []
+        for e in pool:
+            c = copy.copy(e)
+            c.regex = c.regex.replace(r"\.", r"[.,]")
+            c.__dict__.pop("_compiled_regex", None)
+            out.append(c)
+        return out
     return pool
 
 
@@ -426,6 +438,15 @@ def run_shared(hist):
                 res.append(("shared-cache-raise", f"history {hist[: step + 1]}: {short_exc(e).replace(d, '<cache_dir>')}"))
                 break
             want = [[freeze(ser_token(t)) for t in T.HyperscanTokenizer(extractors=list(L), cache_dir=None).tokenize(x)[0]] for x in CACHE_TEXTS]
+            # and like the reference tokenizer over the same list (special tokens after merging)
+            for x in CACHE_TEXTS + CUSTOM_TEXTS:
+                hs_c = {freeze(ser_token(t)) for t in tk.extract_tokens(x)}
+                missing = [t for t in (ser_token(t) for t in T.Tokenizer(extractors=list(L)).extract_tokens(x)) if freeze(t) not in hs_c]
+                if missing and in_domain(x):
+                    res.append(("shared-cache-vs-reference", f"after building tokenizers {hist[: step + 1]}, the Hyperscan tokenizer over list '{name}' misses the reference candidate {missing[0]['kind']} {missing[0]['data']!r} in {x!r}"))
+                    break
+            if res:
+                break
             if got != want:
                 i = next(i for i, (a, b) in enumerate(zip(got, want)) if a != b)
                 res.append(("shared-cache-tokens-differ", f"after building tokenizers {hist[: step + 1]} on one cache directory, the last one tokenizes {CACHE_TEXTS[i]!r} differently from a cache-less tokenizer over the same list"))
